@@ -25,4 +25,82 @@ def apply() -> None:
     import crosshair.statespace as ss
 
     ss.StateSpace.cap_result_at_unknown = lambda self: None  # type: ignore[method-assign]
+
+    # 2. bit operations: stock CrossHair realises `a | b` and `a & 0x8000` value by value.
+    import operator as ops
+
+    import z3
+    from crosshair.statespace import context_statespace
+    from crosshair.tracers import NoTracing
+
+    SymbolicInt = bl.SymbolicInt
+
+    def _runs(mask: int):  # type: ignore[no-untyped-def]
+        k = 0
+        while mask >> k:
+            if (mask >> k) & 1:
+                lo = k
+                while (mask >> k) & 1:
+                    k += 1
+                yield lo, k
+            else:
+                k += 1
+
+    def _and_const(avar, mask: int):  # type: ignore[no-untyped-def]
+        # for a >= 0: a & mask = sum over runs [lo,hi) of ((a div 2^lo) mod 2^(hi-lo)) * 2^lo
+        total = z3.IntVal(0)
+        for lo, hi in _runs(mask):
+            total = total + ((avar / (2**lo)) % (2 ** (hi - lo))) * (2**lo)
+        return total
+
+    def _sym_nonneg(x) -> bool:  # type: ignore[no-untyped-def]
+        return context_statespace().smt_fork(x.var >= 0, probability_true=0.95)
+
+    def _valid(expr) -> bool:  # type: ignore[no-untyped-def]
+        solver = context_statespace().solver
+        solver.push()
+        try:
+            solver.add(z3.Not(expr))
+            return solver.check() == z3.unsat
+        finally:
+            solver.pop()
+
+    def _and(op, a, b):  # type: ignore[no-untyped-def]
+        with NoTracing():
+            if isinstance(b, SymbolicInt) and not isinstance(a, SymbolicInt):
+                a, b = b, a
+            if isinstance(a, SymbolicInt) and not isinstance(b, SymbolicInt):
+                m = b.__index__()
+                if m >= 0 and _sym_nonneg(a):
+                    return SymbolicInt(_and_const(a.var, m))
+            elif isinstance(a, SymbolicInt) and isinstance(b, SymbolicInt):
+                if _sym_nonneg(a) and _sym_nonneg(b):
+                    return SymbolicInt(z3.BV2Int(z3.Int2BV(a.var, 64) & z3.Int2BV(b.var, 64)))
+            return ops.and_(bl.realize(a), bl.realize(b))
+
+    def _or(op, a, b):  # type: ignore[no-untyped-def]
+        with NoTracing():
+            if isinstance(b, SymbolicInt) and not isinstance(a, SymbolicInt):
+                a, b = b, a
+            if isinstance(a, SymbolicInt) and not isinstance(b, SymbolicInt):
+                m = b.__index__()
+                if m >= 0 and _sym_nonneg(a):
+                    return SymbolicInt(a.var + m - _and_const(a.var, m))
+            elif isinstance(a, SymbolicInt) and isinstance(b, SymbolicInt):
+                # `hi << 8 | lo`: when the solver proves the operands occupy disjoint bit ranges the
+                # result is their sum (validity check, not a fork)
+                for hi_, lo_ in ((a, b), (b, a)):
+                    for k in (8, 16, 24):
+                        if _valid(z3.And(lo_.var >= 0, lo_.var < 2**k, hi_.var >= 0, hi_.var % (2**k) == 0)):
+                            return SymbolicInt(hi_.var + lo_.var)
+                if _sym_nonneg(a) and _sym_nonneg(b):
+                    return SymbolicInt(z3.BV2Int(z3.Int2BV(a.var, 64) | z3.Int2BV(b.var, 64)))
+            return ops.or_(bl.realize(a), bl.realize(b))
+
+    from numbers import Integral
+
+    for op, fn in ((ops.and_, _and), (ops.or_, _or)):
+        for ta, tb in ((SymbolicInt, Integral), (Integral, SymbolicInt), (SymbolicInt, SymbolicInt)):
+            bl._BIN_OPS_SEARCH_ORDER.append((op, ta, tb, fn))
+    bl._BIN_OPS.clear()
     _done = True
